@@ -310,7 +310,7 @@ func runGeneric(r *Report, prop string) {
 					}
 				}
 				// G5: a literal with Success:true built where an error is known non-nil
-				if len(nonNilErrs) > 0 {
+				if len(nonNilErrs) > 0 && !errorClassified(facts, nonNilErrs) && !errorConsulted(b, nonNilErrs) {
 					if st, ok := in.(*ssa.Store); ok {
 						if fa, ok := st.Addr.(*ssa.FieldAddr); ok && fieldName(fa.X.Type(), fa.Field) == "Success" {
 							if v, isC := ConstBool(st.Val); isC && v {
@@ -1119,4 +1119,64 @@ func runErrorSwallowed(r *Report, rule string, f *ssa.Function) {
 			}
 		}
 	})
+}
+
+// errorClassified: on this path the non-nil error was also recognised as a particular one (a predicate
+// such as IsNotFound(err) / errors.Is(err, X) answered true, or err == sentinel): what the code does
+// next is its deliberate answer to that condition (an idempotent delete reports success when the
+// object is already gone), not a failure acknowledged as success by accident.
+func errorClassified(facts []Fact, errs []ssa.Value) bool {
+	isErr := func(v ssa.Value) bool {
+		v = stripValue(v)
+		for _, e := range errs {
+			if stripValue(e) == v || sameExpr(stripValue(e), v) {
+				return true
+			}
+		}
+		return false
+	}
+	for _, ft := range facts {
+		if c, ok := ft.Cond.(*ssa.Call); ok && ft.Pol {
+			for _, a := range c.Call.Args {
+				if isErr(a) {
+					return true
+				}
+			}
+		}
+		if bo, ok := ft.Cond.(*ssa.BinOp); ok && ((bo.Op == token.EQL && ft.Pol) || (bo.Op == token.NEQ && !ft.Pol)) {
+			if (isErr(bo.X) && !isNil(bo.Y)) || (isErr(bo.Y) && !isNil(bo.X)) {
+				return true
+			}
+		}
+	}
+	return false
+}
+
+// errorConsulted: on the way to b a predicate was asked about the error (a bool-returning call that
+// takes it, branched on): `if !Is(err, A) && !IsNotFound(err) { return failure }` leaves the success
+// answer reachable only for the errors the predicates recognised, through a join no single edge dominates.
+func errorConsulted(b *ssa.BasicBlock, errs []ssa.Value) bool {
+	isErr := func(v ssa.Value) bool {
+		v = stripValue(v)
+		for _, e := range errs {
+			if stripValue(e) == v || sameExpr(stripValue(e), v) {
+				return true
+			}
+		}
+		return false
+	}
+	for d := b; d != nil; d = d.Idom() {
+		for _, in := range d.Instrs {
+			c, ok := in.(*ssa.Call)
+			if !ok || c.Type().String() != "bool" {
+				continue
+			}
+			for _, a := range c.Call.Args {
+				if isErr(a) {
+					return true
+				}
+			}
+		}
+	}
+	return false
 }
